@@ -37,8 +37,8 @@ pub enum OpKind {
     /// the same with fixed-blocking headers (identical specifier bits, the other blocking strategy)
     AssembledFixed,
     /// frame-level encode; then the header of the first frame (also with a start-sample number the writer must refuse)
-    /// and each of its subframes are written alone into a user sink that fails at its k-th operation; then the stream
-    /// is written into a `ByteSink`. Observable: the bits every failing sink accepted, the errors, the stream bytes
+    /// and each of its subframes are written alone into a user sink that fails at its k-th operation (after the stream
+    /// has been written into a `ByteSink`, so that the next operation meets what the failed writes left). Observable: the bits every failing sink accepted, the errors, the stream bytes
     FailingComponentWrites,
 }
 
@@ -143,6 +143,8 @@ fn exec_inner(op: &Op) -> Result<Vec<u8>, String> {
             if s.count_bits() > limit {
                 return Err("oversized".into());
             }
+            // the stream first, the failing writes last: whatever they leave behind meets the next operation of the history
+            out.extend_from_slice(&enc::stream_bytes(&s, limit)?);
             if let Some(f) = frames.first() {
                 let mut k = op.inp.seed as usize;
                 let mut fail_write = |c: &dyn Fn(&mut crate::oracle::bits::MinimalSink) -> u8, out: &mut Vec<u8>| {
@@ -161,17 +163,20 @@ fn exec_inner(op: &Op) -> Result<Vec<u8>, String> {
                     Err(flacenc::error::OutputError::Sink(_)) => 1,
                     Err(_) => 2,
                 };
-                fail_write(&|snk| code(f.header().write(snk)), &mut out);
-                let mut h2 = f.header().clone();
-                h2.set_frame_offset(FrameOffset::StartSample(1u64 << 36));
-                fail_write(&|snk| code(h2.write(snk)), &mut out);
+                // order: the frame and the subframes first, the header last (a successful write may tidy up what a
+                // failed one left; the last thing this operation does is a header write that fails)
+                fail_write(&|snk| code(f.write(snk)), &mut out);
                 for c in 0..f.subframe_count() {
                     let sf = f.subframe(c).unwrap();
                     fail_write(&|snk| code(sf.write(snk)), &mut out);
                 }
-                fail_write(&|snk| code(f.write(snk)), &mut out);
+                fail_write(&|snk| code(f.header().write(snk)), &mut out);
+                if op.inp.seed % 2 == 0 {
+                    let mut h2 = f.header().clone();
+                    h2.set_frame_offset(FrameOffset::StartSample(1u64 << 36));
+                    fail_write(&|snk| code(h2.write(snk)), &mut out);
+                }
             }
-            out.extend_from_slice(&enc::stream_bytes(&s, limit)?);
         }
         OpKind::AssembledVariable | OpKind::AssembledFixed => {
             let variable = op.kind == OpKind::AssembledVariable;
